@@ -150,6 +150,9 @@ func (l *logProbe) Write(b []byte) (int, error) {
 	return len(b), nil
 }
 
+func (p *Probe) VerifProbe()     {}
+func (w *RawWriter) VerifProbe() {}
+
 // RawWriter records every underlying write as one event and yields around it (C17).
 type RawWriter struct {
 	mu     sync.Mutex
